@@ -18,6 +18,7 @@ Print Assumptions C08_members.
 Theorem C08_serial_order : forall (C X : Type) (ms : list (member C X)) x0 recs mc,
   In mc ms -> In (run_from C X (fst mc) (snd mc) (rs0 X x0) None recs) (serial C X ms x0 recs).
 Proof. exact serial_order_irrelevant. Qed.
+Print Assumptions C08_serial_order.
 
 (** the caller's lines, per record: union (if_all_agree: conjunction) of the running members' decisions *)
 Theorem C08_caller_lines : forall (C X : Type) agree (ms : list (member C X)) sts out nl,
